@@ -20,7 +20,8 @@ fn rand_name(r: &mut Rng) -> Vec<Vec<u8>> {
 
 fn rand_rr(r: &mut Rng, names: &[Vec<Vec<u8>>]) -> ResourceRecord<'static> {
     let name = mk_name(&r.pick(names)[..]);
-    let class = if r.chance(1, 8) { CLASS::CH } else { CLASS::IN };
+    // every class a record can have (IN mostly; CS, CH, HS and NONE are registrable and askable like it)
+    let class = if r.chance(1, 5) { *r.pick(&[CLASS::CH, CLASS::CS, CLASS::HS, CLASS::NONE]) } else { CLASS::IN };
     let rdata = match r.below(10) {
         9 => RData::NULL(10, NULL::new(&[7, 7]).unwrap()),
         // shared records: a service type pointing at an instance
@@ -129,7 +130,7 @@ pub fn c13(tier: &str, seed: u64) -> Vec<Case> {
         let nq = match r.below(14) { 0 => r.range(3, 12), 1 if it % 3 == 0 => r.range(13, 40), _ => r.range(0, 2) };
         for _ in 0..nq {
             let qt = match r.below(13) { 12 => QTYPE::TYPE(TYPE::NULL), 10 => *r.pick(&[QTYPE::AXFR, QTYPE::IXFR, QTYPE::MAILA]), 11 => QTYPE::TYPE(TYPE::MX), 0 | 7 => QTYPE::ANY, 8 => QTYPE::TYPE(TYPE::CNAME), 9 => QTYPE::TYPE(TYPE::NS), 1 => QTYPE::MAILB, 2 => QTYPE::TYPE(TYPE::SRV), 3 => QTYPE::TYPE(TYPE::AAAA), 4 => QTYPE::TYPE(TYPE::PTR), 5 => QTYPE::TYPE(TYPE::TXT), _ => QTYPE::TYPE(TYPE::A) };
-            let qc = match r.below(6) { 0 => QCLASS::ANY, 1 => QCLASS::CLASS(CLASS::CH), _ => QCLASS::CLASS(CLASS::IN) };
+            let qc = match r.below(8) { 0 => QCLASS::ANY, 1 => QCLASS::CLASS(CLASS::CH), 2 => QCLASS::CLASS(*r.pick(&[CLASS::CS, CLASS::HS, CLASS::NONE, CLASS::NONE])), _ => QCLASS::CLASS(CLASS::IN) };
             let qn = if !pool.is_empty() && r.chance(2, 3) { r.pick(&pool).name.clone() } else { mk_name(&r.pick(&names)[..]) };
             q.questions.push(Question::new(qn, qt, qc, r.chance(1, 4)));
         }
@@ -459,6 +460,28 @@ pub fn c20(tier: &str, seed: u64) -> Vec<Case> {
         let has = |r: &ResourceRecord| got.iter().any(|g| g.ends_with(&text::rdata(&r.rdata)));
         if !has(&first) { c = c.fail("cache-expiry", "a cached record with TTL 1000 is gone 1.3 s after another record of its name and type arrived with the cache-flush bit".into()); }
         if has(&second) { c = c.fail("cache-expiry", "a record received with the cache-flush bit is still returned 1.3 s later".into()); }
+        v.push(c);
+    }
+    // a filter is a description of what is wanted, not a moment in time: built first and used later, it still judges
+    // expiry by the clock at the time of the query
+    {
+        let mut mgr: ResourceRecordManager<'static> = ResourceRecordManager::new();
+        let host = mk_name(&[b"early".to_vec(), b"local".to_vec()]);
+        let (cached_filter, all_filter) = (DomainResourceFilter::cached(), DomainResourceFilter::all());
+        let short = ResourceRecord::new(host.clone(), CLASS::IN, 1, RData::A(A { address: 1 }));
+        let gone = ResourceRecord::new(host.clone(), CLASS::IN, 0, RData::A(A { address: 2 }));
+        let long = ResourceRecord::new(host.clone(), CLASS::IN, 1000, RData::A(A { address: 3 }));
+        std::thread::sleep(Duration::from_millis(20));
+        mgr.add_cached_resource(short.clone());
+        mgr.add_cached_resource(gone.clone());
+        mgr.add_cached_resource(long.clone());
+        std::thread::sleep(Duration::from_millis(1250));
+        let mut c = Case::oracle_only().tag("filter-built-early");
+        for (what, filter) in [("cached", cached_filter), ("all", all_filter)] {
+            let got: Vec<String> = mgr.get_domain_resources(&host, filter).flatten().map(|r| text::rdata(&r.rdata)).collect();
+            let want = vec![text::rdata(&long.rdata)];
+            if got != want { c = c.fail("cache-expiry", format!("a {} filter built before the records were received returns {} record(s) 1.25 s after a TTL-0, a TTL-1 and a TTL-1000 record arrived (expected the last one only)", what, got.len())); }
+        }
         v.push(c);
     }
     // many records under one name: all of them are kept (a host with dozens of addresses, a service type with dozens of
